@@ -14,7 +14,8 @@ outcome: it is not an outcome of the real code at all.
 Only property theorems live here (each is audited with `#print axioms`); helper lemmas are in
 `RuschmProofs/SafeFront.lean` (lexer, reader, macro builders, `toStatement`),
 `RuschmProofs/SafeExpand.lean` (macro expansion keeps data `n/0`-free, `toStatement` produces `ok`
-code), `RuschmProofs/SafeLemmas.lean` (native procedures), `RuschmProofs/SafeEval.lean` (the evaluator), `RuschmProofs/SafeUsable.lean` (the probe).
+code), `RuschmProofs/SafeLemmas.lean` (native procedures), `RuschmProofs/SafeEval.lean` (the evaluator), `RuschmProofs/SafeInterp.lean` (imports, libraries,
+`evalText`, the initial states), `RuschmProofs/SafeUsable.lean` (the probe).
 Vocabulary (`NoPanic`, `ratOk`, `ok`, `Value.Safe`, `Store.Safe`, `Interp.Safe`) is defined in
 `RuschmSpec/Safe.lean`.
 -/
@@ -23,6 +24,8 @@ import RuschmProofs.SafeExpand
 import RuschmProofs.SafeLemmas
 import RuschmProofs.SafeUsable
 import RuschmProofs.SafeEval
+import RuschmProofs.SafeInterp
+import RuschmProofs.C14
 
 namespace Ruschm.C07
 open Ruschm
@@ -204,6 +207,80 @@ example : (Eval.evalExpr 1 {} 0 (.prim (.rat 1 0) none)).1 =
     .error (.panic "exact_ratio: zero denominator", none) := by
   simp [Eval.evalExpr, Eval.evalPrim, Num.exactRatio, Except.map]
 
+/-! ## 5. The interpreter -/
+
+/-- From a safe interpreter state, evaluating ANY text with ANY fuel does not panic, and the
+state it leaves is safe again — whatever the outcome (value, reported error, fuel). Covers
+reading, macro expansion, evaluation, imports, and libraries loaded from registered factories or
+from library FILES (`State.files`: any text; `factoryOfText` of any text yields `ok` code or a
+reported error). -/
+theorem interp_no_panic (fuel : Nat) (st : Interp.State) (text : List Char) (h : Interp.Safe st) :
+    NoPanic (Interp.evalText fuel st text).1 ∧ Interp.Safe (Interp.evalText fuel st text).2 :=
+  have i := Interp.evalText_post fuel st text h
+  ⟨noPanic_iff.2 i.np, i.safe⟩
+
+/-- Library files: whatever the text of the file, making a factory from it does not panic, and a
+factory it yields holds `ok` declarations. -/
+theorem library_file_no_panic (name : LibName) (text : String) :
+    NoPanic (Interp.factoryOfText name text) ∧
+      ∀ f, Interp.factoryOfText name text = .ok f → ∃ decls, f = .ast decls ∧ LibDecl.okList decls = true :=
+  ⟨noPanic_iff.2 (Interp.factoryOfText_post name text).1, (Interp.factoryOfText_post name text).2⟩
+
+/-- Imports (any import sets, any target frame of the store) keep the state safe and do not panic. -/
+theorem import_no_panic (fuel : Nat) (st : Interp.State) (sets : List ImportSet) (ρ : Nat)
+    (h : Interp.Safe st) :
+    NoPanic (Interp.evalImport fuel st sets ρ).1 ∧ Interp.Safe (Interp.evalImport fuel st sets ρ).2 :=
+  have i := (Interp.iAt fuel).import_ (r := _) (st' := _) rfl h
+  ⟨noPanic_iff.2 i.np, i.safe⟩
+
+/-- The initial states are safe: `Interpreter::default()` (with or without the harness's host
+library), `Interpreter::new_with_stdlib()` whatever fuel the import of the standard library is
+given, and either of them with any set of files next to the program. -/
+theorem initial_safe (b : Bool) (fuel₀ : Nat) (files : List (String × Interp.FileEntry)) :
+    Interp.Safe (Interp.default_ b) ∧ Interp.Safe (Interp.withStdlib fuel₀ b) ∧
+    Interp.Safe { Interp.default_ b with files := files } ∧
+    Interp.Safe { Interp.withStdlib fuel₀ b with files := files } :=
+  have h1 := Interp.default_safe b
+  have h2 := Interp.withStdlib_safe fuel₀ b
+  ⟨h1, h2, ⟨h1.store, h1.env, h1.instances, h1.factories, h1.syn⟩,
+    ⟨h2.store, h2.env, h2.instances, h2.factories, h2.syn⟩⟩
+
+/-! ## 6. THE property -/
+
+/-- a session from a safe state: no outcome is a panic and the final state is safe -/
+theorem run_no_panic (inputs : List (Nat × List Char)) :
+    ∀ (st : Interp.State), Interp.Safe st →
+      (∀ r ∈ (Interp.run st inputs).1, NoPanic r) ∧ Interp.Safe (Interp.run st inputs).2 := by
+  induction inputs with
+  | nil => intro st h; exact ⟨by simp [Interp.run], h⟩
+  | cons p rest ih =>
+    intro st h
+    obtain ⟨fuel, text⟩ := p
+    have h1 := interp_no_panic fuel st text h
+    have h2 := ih _ h1.2
+    simp only [Interp.run]
+    refine ⟨fun r hr => ?_, h2.2⟩
+    rcases List.mem_cons.1 hr with rfl | hr
+    · exact h1.1
+    · exact h2.1 r hr
+
+/-- **C07.** For every sequence of character sequences given one after another, each with any
+fuel, to an interpreter created by `new_with_stdlib()` (with any fuel for the import of the
+standard library) or by `default()`, with any files next to the program: no outcome is a panic.
+Every outcome is a value, a reported error, or the model's fuel outcome. -/
+theorem no_panic (b : Bool) (fuel₀ : Nat) (files : List (String × Interp.FileEntry))
+    (inputs : List (Nat × List Char)) :
+    (∀ r ∈ (Interp.run { Interp.withStdlib fuel₀ b with files := files } inputs).1, NoPanic r) ∧
+    (∀ r ∈ (Interp.run { Interp.default_ b with files := files } inputs).1, NoPanic r) :=
+  ⟨(run_no_panic inputs _ (initial_safe b fuel₀ files).2.2.2).1,
+   (run_no_panic inputs _ (initial_safe b fuel₀ files).2.2.1).1⟩
+
+/-- the session function does evaluate: one probe, one outcome -/
+example : (Interp.run {} [(7, "((lambda (x) x) 42)".toList)]).1 = [.ok (some (.num (.int 42)))] := by
+  have := Usable.evalText_probe 0 {}
+  simp only [Interp.run, List.cons.injEq, and_true]
+  exact this
+
 /-! ## 7. After ANY outcome the interpreter still evaluates -/
 
 /-- From EVERY interpreter state — whatever an earlier error left behind in the store, the syntax
@@ -215,6 +292,29 @@ theorem usable_after_error (st : Interp.State) (fuel : Nat) (hf : 7 ≤ fuel) :
   obtain ⟨n, rfl⟩ : ∃ n, fuel = n + 7 := ⟨fuel - 7, by omega⟩
   exact Usable.evalText_probe n st
 
+/-- After ANY outcome of evaluating a text — an error included — the returned state differs from
+the input state at most in the store, the syntax environment, the library tables and the
+`import_end` flag: the in-progress set is as before (it is restored after every import, failed
+or not: `C14.model_in_progress_restored`), and so are the files and the root frame. From a safe
+state the returned state is safe, so everything above applies to it again; and by
+`usable_after_error` it evaluates the probe whether it is safe or not. -/
+theorem state_usable_after_any_outcome (fuel : Nat) (st : Interp.State) (text : List Char) :
+    (Interp.evalText fuel st text).2.inProgress = st.inProgress ∧
+    (Interp.evalText fuel st text).2.files = st.files ∧
+    (Interp.evalText fuel st text).2.env = st.env ∧
+    (Interp.Safe st → Interp.Safe (Interp.evalText fuel st text).2) ∧
+    (∀ fuel', 7 ≤ fuel' →
+      (Interp.evalText fuel' (Interp.evalText fuel st text).2 "((lambda (x) x) 42)".toList).1 =
+        .ok (some (.num (.int 42)))) :=
+  have f := Interp.evalText_frame fuel st text
+  ⟨f.1, f.2.1, f.2.2, fun h => (interp_no_panic fuel st text h).2,
+    fun fuel' hf => usable_after_error _ fuel' hf⟩
+
+/-- the in-progress mark of a failed import is removed (the cited theorem) -/
+example (fuel : Nat) (st : Interp.State) (s : ImportSet) :
+    (Interp.evalImportSet fuel st s).2.inProgress = st.inProgress :=
+  (C14.model_in_progress_restored fuel st).1 s
+
 /-- with no fuel the model reports the fuel outcome (not an outcome of the real code) -/
 example : (Interp.evalText 0 {} "((lambda (x) x) 42)".toList).1 = .error (.fuel, some (1, 2)) := by
   rw [Usable.txt_eq]
@@ -223,5 +323,123 @@ example : (Interp.evalText 0 {} "((lambda (x) x) 42)".toList).1 = .error (.fuel,
   rw [show Usable.s0.toks.length + 1 = 11 from by decide, Interp.evalText.go, Usable.next0]
   simp only [Usable.fuel_d0, Usable.xform0]
   simp [Interp.evalAst, Interp.evalExprOrDef, Usable.stmt0, Eval.evalExpr, Usable.e0, Statement.loc, Expr.loc]
+
+/-! ## 8. Inventory of the panic sites -/
+
+/-- Every panic site of the model is unreachable from a safe interpreter state — in particular
+from the initial states (`initial_safe`) and from every state a session reaches (`run_no_panic`).
+`panicSites` (RuschmSpec/Safe.lean) lists the `Err.panic` labels that occur in
+`RuschmModel/*.lean`; the per-site theorems below give, for each, the local reason. -/
+theorem panic_sites_inventory : ∀ site ∈ panicSites, UnreachableFromSafe site :=
+  fun _ _ st fuel text s l h _ => (interp_no_panic fuel st text h).1 s l
+
+example : Interp.Safe (Interp.default_ false) := (initial_safe false 0 []).1
+
+/-- `exact_ratio: zero denominator` (and `floor:`/`ceiling: zero denominator`): `exactRatio n d`
+panics only for `d = 0` (`C09.exactRatio_panic_iff`); a literal `n/d` has `d ≠ 0` (the lexer
+rejects `n/0`: `lex_rat_ok`, `read_rat_ok`; expansion keeps it: `expansion_rat_ok`), and on
+operands with positive denominators no numeric operation panics and the results have positive
+denominators again. -/
+theorem exactRatio_site_unreachable :
+    (∀ n d : Int, d ≠ 0 → NoPanicE (Num.exactRatio n d)) ∧
+    (∀ p : Prim, p.ratOk = true → NoPanicE (Eval.evalPrim p)) ∧
+    (∀ a b : Num, a.PosDen → b.PosDen →
+      NoPanicE (Num.add a b) ∧ NoPanicE (Num.sub a b) ∧ NoPanicE (Num.mul a b) ∧ NoPanicE (Num.div a b) ∧
+      NoPanicE (Num.abs a) ∧ NoPanicE (Num.floor a) ∧ NoPanicE (Num.ceiling a) ∧
+      NoPanicE (Num.floorQuotient a b) ∧ NoPanicE (Num.floorRemainder a b)) := by
+  refine ⟨fun n d hd s h => ?_, fun p hp s h => ?_, fun a b pa pb => ?_⟩
+  · exact hd (C09.exactRatio_panic_iff.1 ⟨s, h⟩)
+  · exact (Eval.evalPrim_good hp).1 _ h s rfl
+  · exact ⟨(Num.safe_add a b pa pb).1, (Num.safe_sub a b pa pb).1, (Num.safe_mul a b pa pb).1,
+      (Num.safe_div a b pa pb).1, (Num.safe_abs a pa).1, (Num.safe_floor a pa).1, (Num.safe_ceiling a pa).1,
+      (Num.safe_floorQuotient a b pa pb).1, (Num.safe_floorRemainder a b pa pb).1⟩
+
+example : Num.exactRatio 1 0 = .error (.panic "exact_ratio: zero denominator") := rfl
+
+/-- `base.rs unwrap: …` (a native procedure reading an argument that is not there): unreachable
+once the arity check of `apply_procedure` has passed — for every native procedure, `sub`/`div`
+and `max`/`min` included. -/
+theorem missing_site_unreachable (σ : Store) (b : Builtin) (args : List Value)
+    (har : Eval.arityOk b.arity.1 b.arity.2 args.length = true) (s : String) (l : Loc)
+    (h : (Prim.applyPure σ b args).1 = .error (.panic s, l)) :
+    s ≠ "base.rs unwrap: sub/div" ∧ s ≠ "base.rs unwrap: max/min" ∧
+      ∀ b' : Builtin, s ≠ "base.rs unwrap: " ++ b'.name := by
+  have hs := Prim.applyPure_sites har s l h
+  refine ⟨?_, ?_, fun b' => ?_⟩
+  · rintro rfl; revert hs; decide
+  · rintro rfl; revert hs; decide
+  · rintro rfl; revert hs; cases b' <;> decide
+
+example : (Prim.applyPure {} .sub []).1 = .error (.panic "base.rs unwrap: sub/div", none) := rfl
+
+/-- `apply_scheme_procedure: arg_iter.next().unwrap()`: binding the fixed parameters cannot fail
+when there are at least as many arguments as fixed parameters — which `arityOk`, checked by
+`applyLoop` before every `applyScheme`, guarantees. -/
+theorem bindFixed_site_unreachable (σ : Store) (ρ : Nat) :
+    ∀ (names : List String) (args : List Value), names.length ≤ args.length →
+      ∃ rest, (Eval.bindFixed σ ρ names args).1 = .ok rest := by
+  intro names
+  induction names generalizing σ with
+  | nil => intro args _; exact ⟨args, by rw [Eval.bindFixed]⟩
+  | cons f fs ih =>
+    intro args hl
+    cases args with
+    | nil => simp at hl
+    | cons a as => rw [Eval.bindFixed]; exact ih _ as (by simpa using hl)
+
+example : Eval.arityOk 2 false 1 = false ∧ (2 ≤ 1 → False) := ⟨rfl, by decide⟩
+
+/-- `apply_scheme_procedure: empty body` (`unreachable!`): the body of every procedure the
+evaluator runs is non-empty, because `toBody` rejects an empty body (`xform_bodies_ok`) and
+`Lambda.ok` is part of `Value.Safe` for closures. -/
+theorem emptyBody_site_unreachable {fuel : Nat} {σ : Store} {ρ : Nat} {es : List Expr} (hσ : σ.Safe)
+    (hρ : ρ < σ.frames.size) (hes : Expr.okList es = true) (hne : es ≠ []) :
+    NoPanic (Eval.evalBody fuel σ ρ es).1 :=
+  noPanic_iff.2 ((Eval.safeAt fuel).body σ ρ es _ _ rfl hσ hρ hes (by cases es <;> simp_all)).np
+
+/-- `apply_procedure: not a procedure`: `applyLoop` is only entered with a procedure — `evalExpr`,
+the trampoline and `spreadApply` test `procArity` first. -/
+theorem notProcedure_site_unreachable {fuel : Nat} {σ : Store} {p : Value} {args : List Value} {env : Nat}
+    (hσ : σ.Safe) (hp : p.Safe ∧ σ.AllocIn p) (ha : ∀ a ∈ args, a.Safe ∧ σ.AllocIn a)
+    (hq : (Eval.procArity p).isSome = true) : NoPanic (Eval.applyLoop fuel σ p args env).1 :=
+  noPanic_iff.2 ((Eval.safeAt fuel).loop σ p args env _ _ rfl hσ hp ha hq).np
+
+/-- `dangling vector` (the site occurs in `vector-length`, `vector-ref`, `vector-set!`): a vector
+reference whose cell is allocated (`Store.AllocIn`, kept by `Store.WF`: `C03.store_wf_invariant`)
+is never dangling. -/
+theorem danglingVector_site_unreachable {σ : Store} {b : Builtin} {args : List Value}
+    (hb : b = .vectorLength ∨ b = .vectorRef ∨ b = .vectorSet)
+    (hal : ∀ a ∈ args, σ.AllocIn a) (l : Loc) :
+    (Prim.applyPure σ b args).1 ≠ .error (.panic "dangling vector", l) := by
+  intro h
+  rcases hb with rfl | rfl | rfl <;> simp only [Prim.applyPure] at h <;> (repeat' split at h)
+  all_goals first
+    | (cases h; done)
+    | (rename_i hn; exact Prim.vec_alloc_some (hal _ (by simp)) hn)
+    | (simp only [Prim.missing_fst, Builtin.name] at h
+       simp only [Except.error.injEq, Prod.mk.injEq, Err.panic.injEq] at h
+       exact absurd h.1 (by decide))
+
+example : (Prim.applyPure {} .vectorLength [.vec 3]).1 = .error (.panic "dangling vector", none) := rfl
+
+/-- `spread_apply_arguments: unwrap`: `apply` has arity (1, variadic), so the argument list that
+reaches `spreadApply` is non-empty. -/
+theorem spreadApply_site_unreachable (args : List Value) (hne : args ≠ []) :
+    NoPanicE (Eval.spreadApply args) := by
+  intro s h
+  unfold Eval.spreadApply at h
+  cases args with
+  | nil => exact hne rfl
+  | cons f rest =>
+    simp only at h
+    repeat' split at h
+    all_goals cases h
+
+example : Builtin.apply.arity = (1, true) := rfl
+
+/-- `macros.rs get_mut unwrap`: the matcher never panics, for all inputs (`C04.match_no_panic`). -/
+theorem macroUnwrap_site_unreachable (fuel : Nat) (lits : List String) (p : Macro.Pat) (d : Datum)
+    (σ : Macro.Subst) : NoPanic (Macro.matchDatum fuel lits p d σ) :=
+  fun _ _ => C04.match_no_panic
 
 end Ruschm.C07
